@@ -23,11 +23,25 @@ def latest():
 
 
 def needs(pid, x):
+    """the section of the sub-agent's notes.md that describes change x (falls back to the head of the file)"""
     p = os.path.join(SRC, pid, 'notes.md')
     if not os.path.exists(p):
         return ''
     txt = open(p).read()
-    return txt[:6000]
+    lines = txt.split('\n')
+    start = None
+    for i, ln in enumerate(lines):
+        if re.match(r'^#{1,4}\s*(change\s+)?[`(*]*' + x + r'\b[`)*]*\s*([-:.(\u2014]|$)', ln.strip(), re.I):
+            start = i
+            break
+    if start is None:
+        return txt[:2500]
+    end = len(lines)
+    for j in range(start + 1, len(lines)):
+        if re.match(r'^#{1,4}\s', lines[j]):
+            end = j
+            break
+    return '\n'.join(lines[start:end]).strip()[:4000]
 
 
 def main():
